@@ -58,6 +58,29 @@ func subsetList(n, arg int) []glyph.ID {
 	return res
 }
 
+// layoutLanguages: scripts with and without contextual joining, right-to-left
+// and left-to-right, with and without a matching language system in the
+// generated fonts.
+var layoutLanguages = []language.Tag{language.English, language.German, language.Und, language.MustParse("tr"),
+	language.Arabic, language.Persian, language.Hebrew, language.MustParse("syr"), language.MustParse("mn-Mong"),
+	language.Hindi, language.Japanese, language.MustParse("und-Arab"), language.MustParse("sr-Latn")}
+
+// packageDefaults renders the exported package-level defaults that every
+// caller shares.
+func packageDefaults() string {
+	var keys []string
+	for k, v := range gtab.GsubDefaultFeatures {
+		keys = append(keys, fmt.Sprintf("gsub:%s=%v", k, v))
+	}
+	for k, v := range gtab.GposDefaultFeatures {
+		keys = append(keys, fmt.Sprintf("gpos:%s=%v", k, v))
+	}
+	sort.Strings(keys)
+	return strings.Join(keys, " ")
+}
+
+var packageDefaults0 = packageDefaults()
+
 var texts = []string{"", "A", "fi", "ffl", "HxAB", "aé Ω", "AAAA", "f́i", "xyz\U0001F600", "flab"}
 
 func infoString(seq []glyph.Info) string {
@@ -138,7 +161,7 @@ func run(f *sfnt.Font, o op) (res string) {
 			err := f.AsCFF().Write(&buf)
 			res = fmt.Sprintf("%v %x", err, stats.Hash(buf.Bytes()))
 		case "Layout":
-			lang := []language.Tag{language.English, language.German, language.Und, language.MustParse("tr")}[o.Arg%4]
+			lang := layoutLanguages[o.Arg%len(layoutLanguages)]
 			l, err := f.NewLayouter(lang, nil, nil)
 			if err != nil {
 				res = "err: " + err.Error()
@@ -399,6 +422,9 @@ func schedules(t *testing.T, cold bool) {
 					t.Fatalf("goroutine %d op %s: concurrent result differs from sequential result\n  concurrent: %.300s\n  sequential: %.300s\n%s", i, plans[i][j], got[i][j], want[i][j], hist.String())
 				}
 			}
+		}
+		if d := packageDefaults(); d != packageDefaults0 {
+			t.Fatalf("the package-level default feature sets were modified by read-only operations on a font:\n  before: %s\n  after:  %s\n%s", packageDefaults0, d, hist.String())
 		}
 		if l := fontcmp.Dump(f.Gsub) + fontcmp.Dump(f.Gpos) + fontcmp.Dump(f.Gdef); l != layout0 {
 			t.Fatalf("the shared font's layout tables were modified by read-only operations\n%s", hist.String())
